@@ -26,26 +26,26 @@ type deferRec struct {
 }
 
 type Frame struct {
-	c         *Ctx
-	fn        *ssa.Function
-	env       map[ssa.Value]*Val
-	edge      map[[2]int]*State
-	rets      []retRec
-	defers    []deferRec
-	caller    *Frame
-	depth     int
-	li        *LoopInfo
-	contract  *Contract // contract of fn when fn is the function under verification
-	top       bool
-	entry     *State  // state at entry (for old())
-	curLoops  []*Loop // unrolled loops currently being executed (innermost last)
-	siteOrd   map[ssa.Instruction]string
-	isaWrites []isaWrite
-	view      *regView
-	lanes     *laneSpec
-	loopEntry map[int]*State // state on entry to each loop cut at an invariant (spec builtin atloop)
-	cutCarried []Term        // havoc symbols of the loop-carried values (header phis other than the induction variable) of the loops cut so far (spec builtin loopfree)
-	onCall    func(f *Frame, st *State, call ssa.CallInstruction, args []*Val) // hook (assert-at, C06 ...)
+	c          *Ctx
+	fn         *ssa.Function
+	env        map[ssa.Value]*Val
+	edge       map[[2]int]*State
+	rets       []retRec
+	defers     []deferRec
+	caller     *Frame
+	depth      int
+	li         *LoopInfo
+	contract   *Contract // contract of fn when fn is the function under verification
+	top        bool
+	entry      *State  // state at entry (for old())
+	curLoops   []*Loop // unrolled loops currently being executed (innermost last)
+	siteOrd    map[ssa.Instruction]string
+	isaWrites  []isaWrite
+	view       *regView
+	lanes      *laneSpec
+	loopEntry  map[int]*State                                                   // state on entry to each loop cut at an invariant (spec builtin atloop)
+	cutCarried []Term                                                           // havoc symbols of the loop-carried values (header phis other than the induction variable) of the loops cut so far (spec builtin loopfree)
+	onCall     func(f *Frame, st *State, call ssa.CallInstruction, args []*Val) // hook (assert-at, C06 ...)
 }
 
 func (f *Frame) pos(in ssa.Instruction) token.Position {
